@@ -43,7 +43,7 @@ const BORROWED_RETURNS: [&str; 4] = ["c_ref", "c_mut", "c_group_ref", "c_group_m
 const N_FAMILIES: usize = factory::N_SINGLE + 5;
 
 fn family_name(f: usize) -> &'static str {
-    ["Basic", "ReadOnly", "Shapes", "IntRes", "Consume", "Children", "ChildrenMore", "GrpA", "GrpR", "GrpB", "GrpD", "GrpC"][f]
+    ["Basic", "ReadOnly", "Shapes", "IntRes", "Consume", "Children", "ChildrenMore", "Debug", "Display", "AsRef", "GrpA", "GrpR", "GrpB", "GrpD", "GrpC"][f]
 }
 
 fn create_pair(st: &mut State, family: usize, mask: u32, cont: usize, ctxsel: usize) -> Option<Pair> {
@@ -69,6 +69,10 @@ fn create_pair(st: &mut State, family: usize, mask: u32, cont: usize, ctxsel: us
         // C05: every erased object is made by the separately compiled module, boxed, carrying the
         // type-erased reference-counted context that keeps the module loaded
         let ctx = st.ctx_handle.clone()?;
+        // the plugin numbers its families without the host-only ext singles
+        let pfam = if family < factory::N_PLUGIN_SINGLE { family } else if family >= factory::N_SINGLE { family - (factory::N_SINGLE - factory::N_PLUGIN_SINGLE) } else { return None };
+        let family_host = family;
+        let family = pfam;
         let hs = crate::plugin_gen::host_sizeof(family as u32);
         let ps = unsafe { (pl.sizeof)(family as u32) };
         if hs != ps {
@@ -79,9 +83,9 @@ fn create_pair(st: &mut State, family: usize, mask: u32, cont: usize, ctxsel: us
         let a = unsafe { track(|| crate::plugin_gen::create_via_plugin(pl.create, family as u32, mask, seed, pl.api, opaque)) }?;
         let b = {
             let cx = Cx { world: &st.world, side: TWIN, seed, ctxsel: 3, arc_ctx: None, erased_arena: &st.erased_arena, twin_arena: &st.twin_arena };
-            if family < factory::N_SINGLE { factory::create_single(family, 0, &cx) } else { create_group(family - factory::N_SINGLE, mask, 0, &cx) }
+            if family_host < factory::N_SINGLE { factory::create_single(family_host, 0, &cx) } else { create_group(family_host - factory::N_SINGLE, mask, 0, &cx) }
         }?;
-        return Some(Pair { a, b: b.obj, ctxsel: 3, family, mask, cont: 0, is_child: false });
+        return Some(Pair { a, b: b.obj, ctxsel: 3, family: family_host, mask, cont: 0, is_child: false });
     }
     let a = mk(ERASED, st)?;
     let b = mk(TWIN, st)?;
@@ -202,7 +206,7 @@ fn adopt_children(st: &mut State, parent_ctx: usize, ra: &mut Ret, rb: &mut Ret,
     for (a, b) in ca.into_iter().zip(cb.into_iter()) {
         match free_slot(st, prefer) {
             Some(s) => {
-                let family = if a.n_optional() > 0 { 7 } else { 0 };
+                let family = if a.n_optional() > 0 { factory::N_SINGLE } else { 0 };
                 st.slots[s] = Some(Pair { a, b, ctxsel: parent_ctx, family, mask: 3, cont: 0, is_child: true });
             }
             None => {
@@ -503,9 +507,9 @@ impl Engine for ObjEngine {
         }
         // family pool of this run (swarm)
         let fam_pool: Vec<i64> = match f.as_str() {
-            "casts" => vec![7, 8, 9, 9, 9, 10, 11, 11],
-            "intres" => vec![3, 3, 3, 7, 8, 6, 11],
-            "ctx" => vec![5, 5, 6, 9, 9, 11, 4, 0, 7, 10],
+            "casts" => vec![10, 11, 12, 12, 12, 13, 14, 14],
+            "intres" => vec![3, 3, 3, 10, 11, 6, 14, 7, 8],
+            "ctx" => vec![5, 5, 6, 12, 12, 14, 4, 0, 10, 13],
             _ => (0..N_FAMILIES as i64).collect(),
         };
         let ctx_mode = rng.below(4); // 0: mixed, 1: none, 2: arc only, 3: mixed without borrowed children
